@@ -36,8 +36,12 @@ type solveResult struct {
 }
 
 func runSolver(sp solverSpec, file string, secs int) solveResult {
+	return runSolverCtx(context.Background(), sp, file, secs)
+}
+
+func runSolverCtx(parent context.Context, sp solverSpec, file string, secs int) solveResult {
 	args := sp.args(file, secs)
-	ctx, cancel := context.WithTimeout(context.Background(), time.Duration(secs+3)*time.Second)
+	ctx, cancel := context.WithTimeout(parent, time.Duration(secs+3)*time.Second)
 	defer cancel()
 	cmd := exec.CommandContext(ctx, args[0], args[1:]...)
 	var out bytes.Buffer
@@ -157,55 +161,52 @@ func solveOne(o *Obligation, opt SolveOpts, idx int) {
 		}
 		return
 	}
-	r := runSolver(solvers[0], file, opt.Secs)
-	if finish(r) {
-		return
-	}
-	if !o.Cover && r.status == "sat" {
-		o.Status = "refuted"
-		o.Solver = r.solver
-		o.Raw = r.out
-		o.Model = parseModel(r.out)
-		return
-	}
-	if o.Cover && r.status == "unsat" {
-		o.Status = "refuted"
-		o.Solver = r.solver
-		return
-	}
-	if r.status == "error" {
-		o.Raw = r.solver + ": " + trunc(r.out, 600)
-	}
-	// race the other two
-	ch := make(chan solveResult, 2)
-	for _, sp := range solvers[1:] {
-		go func(sp solverSpec) { ch <- runSolver(sp, file, opt.Secs) }(sp)
-	}
-	var others []solveResult
-	for range solvers[1:] {
-		others = append(others, <-ch)
-	}
-	for _, r2 := range others {
-		if finish(r2) {
-			return
-		}
-	}
-	for _, r2 := range others {
-		o.Secs += 0
-		if !o.Cover && r2.status == "sat" {
-			o.Status = "refuted"
-			o.Solver = r2.solver
-			o.Raw = r2.out
-			o.Model = parseModel(r2.out)
-			return
-		}
-		if r2.status == "error" && o.Raw == "" {
-			o.Raw = r2.solver + ": " + trunc(r2.out, 600)
+	// staged race: z3-new first; when it has not answered after a short head start the other two join.
+	// The first conclusive answer (unsat, or sat with a model) wins and the rest are cancelled.
+	ctx, cancel := context.WithCancel(context.Background())
+	defer cancel()
+	ch := make(chan solveResult, len(solvers))
+	start := func(sp solverSpec) { go func() { ch <- runSolverCtx(ctx, sp, file, opt.Secs) }() }
+	start(solvers[0])
+	started, done := 1, 0
+	timer := time.NewTimer(1500 * time.Millisecond)
+	defer timer.Stop()
+	var results []solveResult
+	for done < started || started < len(solvers) {
+		select {
+		case <-timer.C:
+			for started < len(solvers) {
+				start(solvers[started])
+				started++
+			}
+		case r := <-ch:
+			done++
+			results = append(results, r)
+			if finish(r) {
+				return
+			}
+			if (!o.Cover && r.status == "sat") || (o.Cover && r.status == "unsat") {
+				o.Status = "refuted"
+				o.Solver = r.solver
+				o.Raw = r.out
+				if !o.Cover {
+					o.Model = parseModel(r.out)
+				}
+				return
+			}
+			if r.status == "error" && o.Raw == "" {
+				o.Raw = r.solver + ": " + trunc(r.out, 600)
+			}
+			// inconclusive: bring in the others at once
+			for started < len(solvers) {
+				start(solvers[started])
+				started++
+			}
 		}
 	}
 	o.Status = "undecided"
-	if o.Raw == "" {
-		o.Raw = r.status
+	if o.Raw == "" && len(results) > 0 {
+		o.Raw = results[0].status
 	}
 }
 
